@@ -71,6 +71,35 @@ NAMES = ["PATH", "LD_LIBRARY_PATH", "PYTHONPATH", "MANPATH", "FOO_DIR", "SETUP_F
 
 # ---- generators ------------------------------------------------------------------------------------
 
+NEAR_MISS_FIXED = ["EUPS_PATH_SAVED", "EUPS_PKGROOT_MIRROR", "EUPS_DIR_EXTRA", "EUPS_SHELLTOOLS_DIR", "SETUP_EUPS_SHELLTOOLS",
+                   "EUPS_", "EUPS_PATHS", "EUPS_DIRS", "MY_EUPS_PATH", "EUPS_SHELL2", "XEUPS_DIR", "EUPS_PATH_DIR",
+                   "SETUP_EUPS_PATH", "eups_path", "EUPS_PKGROOT_", "_EUPS_SHELL"]
+NEAR_MISS_PRODUCTS = ["eups_shelltools", "eups_path", "eups_dir_extra", "eups_pkgroot_mirror", "eups_shell", "eups_dirs",
+                      "xeups_path", "eups_pkgroot"]
+
+
+def near_miss(rng):
+    """A variable name that is almost, but not, one of the four names app.setup refuses to unset: a protected name with
+    something before it, after it, inside it, or missing."""
+    while True:
+        base = rng.choice(PROTECTED)
+        r = rng.random()
+        if r < 0.3:
+            n = base + rng.choice(["_SAVED", "_MIRROR", "_EXTRA", "S", "2", "_", "TOOLS_DIR", "_DIR", "x"])
+        elif r < 0.5:
+            n = rng.choice(["MY_", "X", "_", "SETUP_", "OLD_", "a"]) + base
+        elif r < 0.6:
+            n = base[:-1]
+        elif r < 0.7:
+            n = base.lower() if rng.random() < 0.5 else base.capitalize()
+        elif r < 0.78:
+            n = base.replace("EUPS_", rng.choice(["EUPS__", "EUPS", "EUPS_X"]))
+        else:
+            n = rng.choice(NEAR_MISS_FIXED)
+        if n not in PROTECTED and re.match(r"^[A-Za-z_][A-Za-z0-9_]*$", n) and not SPECIAL.match(n):
+            return n
+
+
 def gen_name(rng):
     if rng.random() < 0.8:
         return rng.choice(NAMES)
@@ -184,6 +213,24 @@ def gen_emit(rng):
                     new.insert(rng.randint(0, len(new)), [k, v])
                 elif r < 0.85:
                     new.insert(rng.randint(0, len(new)), [k, gen_value(rng, claim)])
+    if rng.random() < 0.3:
+        # near misses of the protected names in the caller's environment, mostly among the removed variables
+        for _ in range(rng.randint(1, 3)):
+            k = near_miss(rng)
+            if k in [x[0] for x in old] or k in [x[0] for x in new]:
+                continue
+            v = gen_value(rng, claim)
+            old.insert(rng.randint(0, len(old)), [k, v])
+            r = rng.random()
+            if r < 0.15:
+                new.insert(rng.randint(0, len(new)), [k, v])
+            elif r < 0.3:
+                new.insert(rng.randint(0, len(new)), [k, gen_value(rng, claim)])
+        if rng.random() < 0.5:          # next to a genuinely protected one that disappears (and has to stay)
+            k = rng.choice(PROTECTED)
+            if k not in [x[0] for x in old]:
+                old.append([k, gen_value(rng, claim)])
+            new = [x for x in new if x[0] != k]
     forgotten = [k for k, _ in old if rng.random() < 0.15] if rng.random() < 0.3 else []
     return {"kind": "emit", "old": old, "forgotten": forgotten, "new": new, "aliases": aliases,
             "oldAliases": old_aliases, "opts": opts}
@@ -260,9 +307,16 @@ def gen_stack(rng):
     """1-3 products in a chain (p0 requires p1 requires p2), each in a directory with a weird name."""
     n = rng.randint(1, 3)
     prods = []
+    names = ["p%d" % i for i in range(n)]
+    if rng.random() < 0.35:
+        # products whose names (hence whose <NAME>_DIR / SETUP_<NAME> variables) are near misses of the protected ones
+        for i, nm in zip(rng.sample(range(n), rng.randint(1, n)), rng.sample(NEAR_MISS_PRODUCTS, n)):
+            names[i] = nm
     for i in range(n):
-        name = "p%d" % i
+        name = names[i]
         lines = ["envPrepend(PATH, ${PRODUCT_DIR}/bin)"]
+        if rng.random() < 0.3:
+            lines.append("envSet(%s, ${PRODUCT_DIR})" % near_miss(rng))
         if rng.random() < 0.8:
             lines.append("envSet(%s_HOME, ${PRODUCT_DIR})" % name.upper())
         if rng.random() < 0.4:
@@ -272,14 +326,14 @@ def gen_stack(rng):
         if rng.random() < 0.25:
             lines.append("addAlias(%s_ls, ls -l)" % name)
         if i + 1 < n:
-            lines.append("setupRequired(p%d)" % (i + 1))
+            lines.append("setupRequired(%s)" % names[i + 1])
         d = weird_dirname(rng)
         # VersionFile.write uses the product directory as a regular expression when it shortens the table path
         # (a defect outside C05): such directories are declared with a table file outside the product directory
         mode = "external" if any(c in d for c in "()|+*?[]{}^$\\") else "ups"
         prods.append({"name": name, "version": "1", "dir": d, "tablemode": mode, "table": "\n".join(lines) + "\n"})
     reqs = []
-    top = "p0"
+    top = names[0]
     state = False
     for _ in range(rng.randint(1, 4)):
         fwd = not state if rng.random() < 0.8 else state
@@ -802,6 +856,9 @@ def evaluate(ctx, cases):
                 ctx.hist("stack:%s%s" % ("setup" if req["fwd"] else "unsetup", "/force" if req["force"] else ""))
                 if req["product"] == "eups" and not req["fwd"] and "cmds" in st and st["cmds"] != ["false"]:
                     ctx.hist("stack:unsetup-eups")
+                if "cmds" in st and req["product"] != "eups" and \
+                        any(x.startswith("unset ") and re.match(r"unset (SETUP_)?EUPS_", x) for x in st["cmds"]):
+                    ctx.hist("stack:near-miss-variable-unset")
                 if "exc" in st:
                     ctx.hist("stack:exception=" + st["exc"])
                     continue
@@ -831,6 +888,12 @@ def evaluate(ctx, cases):
             continue
         o = c["opts"]
         ctx.hist("%s:shell=%s%s" % (kind, o["shell"], "/noaction" if o["noaction"] else ""))
+        if kind == "emit" and o["shell"] == "sh" and not o["noaction"] and not o["isEups"]:
+            gone = [k for k, _ in c["old"] if k not in dict(c["new"])]
+            if any(k not in PROTECTED and any(k.upper().find(p) >= 0 or p.startswith(k.upper()) for p in PROTECTED) for k in gone):
+                ctx.hist("emit:near-miss-of-protected-name-removed")
+            if any(k in PROTECTED for k in gone):
+                ctx.hist("emit:protected-name-removed")
         if kind == "emit" and o["isEups"] and not o["fwd"] and o["shell"] == "sh" and not o["noaction"]:
             dropped = [k for k in ("EUPS_PATH", "EUPS_PKGROOT", "EUPS_SHELL") if k in dict(c["old"]) and k in dict(c["new"])]
             ctx.hist("emit:unsetup-eups")
@@ -921,6 +984,10 @@ def run(ctx):
         raise common.InfraError("degenerate distribution: %d deltas inside the claim" % h.get("delta:in-claim", 0))
     if h.get("text:in-fragment", 0) < 0.3 * max(1, h.get("kind=shell", 0)):
         raise common.InfraError("degenerate distribution: %d shell texts inside the fragment" % h.get("text:in-fragment", 0))
+    if h.get("emit:near-miss-of-protected-name-removed", 0) < 100 or h.get("stack:near-miss-variable-unset", 0) < 5:
+        raise common.InfraError("degenerate distribution: near misses of the protected names among the removed variables "
+                                "%d (synthetic) / %d (real stack) times" %
+                                (h.get("emit:near-miss-of-protected-name-removed", 0), h.get("stack:near-miss-variable-unset", 0)))
     if h.get("emit:unsetup-eups/dropped-variable-in-caller-env", 0) < 20 or h.get("stack:unsetup-eups", 0) < 5:
         raise common.InfraError("degenerate distribution: unsetup of eups itself reached %d (synthetic) / %d (real stack) times"
                                 % (h.get("emit:unsetup-eups/dropped-variable-in-caller-env", 0), h.get("stack:unsetup-eups", 0)))
